@@ -115,6 +115,45 @@ pub fn ser_lines(rng: &mut Rng, idx: u64, maxvars: usize, maxops: usize) -> Vec<
             });
             out.push(format!("{} => {}", head, r.unwrap_or_else(|e| e)));
         }
+        2 if idx % 12 == 2 => {
+            // BDD JSON of diagrams built by the top-down compilers (decision-DNNF stores keep
+            // nodes that are NOT in the ROBDD normal form, e.g. a false high edge)
+            let (raw, _) = crate::tdstream::gen_td_raw(rng, maxvars.min(6));
+            let cnf = to_cnf(&raw);
+            let n = cnf.num_vars();
+            let order = if rng.coin() { (0..n).collect::<Vec<_>>() } else { rng.perm(n) };
+            let sem = rng.coin();
+            let vo = mk_order(&order);
+            let r = guarded(|| {
+                use rsdd::builder::decision_nnf::{DecisionNNFBuilder, SemanticDecisionNNFBuilder, StandardDecisionNNFBuilder};
+                rsdd::verif_hooks::set_table_capacity(Some(8));
+                let mut lines = Vec::new();
+                let mut emit = |d: BddPtr| {
+                    for d in [d, d.neg()] {
+                        let head = format!("ser kind=bdd n={} d={}", n, bdd_raw_string(d));
+                        let r = guarded(|| {
+                            let js = serde_json::to_string(&BDDSerializer::from_bdd(d)).unwrap();
+                            format!("json={}", esc(&js))
+                        });
+                        lines.push(format!("{} => {}", head, r.unwrap_or_else(|e| e)));
+                    }
+                };
+                if sem {
+                    let b = SemanticDecisionNNFBuilder::<{ rsdd::constants::primes::U64_LARGEST }>::new(vo);
+                    let d = b.compile_cnf_topdown(&cnf);
+                    emit(d);
+                } else {
+                    let b = StandardDecisionNNFBuilder::new(vo);
+                    let d = b.compile_cnf_topdown(&cnf);
+                    emit(d);
+                }
+                lines
+            });
+            match r {
+                Ok(ls) => out.extend(ls),
+                Err(e) => out.push(format!("ser kind=bdd n={} d=T => {}", n, e)),
+            }
+        }
         2 => {
             // BDD JSON
             let n = rng.range(1, maxvars as u64) as usize;
